@@ -70,7 +70,7 @@ package lq
 //@ func (*LQClient).Get
 //@   property C15
 //@   requires globalLQ != nil && globalLQ.client != nil && globalLQ.client.dbWrite != nil && globalLQ.client.dbWriteSqlc != nil
-//@   modifies dbClaimN, dbClaimID, dbFreshLimit, dbFreshArr, dbFreshLen, sqlCommits, sqlBegun, sqlCommitTried
+//@   modifies dbClaimN, dbClaimID, dbFreshLimit, dbFreshArr, dbFreshLen, sqlCommits, sqlBegun, sqlCommitTried, mapof(dbHandedOut)
 //@   let claims0 = sqlc_model.nClaims()
 //@   let commits0 = sql.nCommits()
 //@   loop range invariant [claimed] -1 <= rangeindex && rangeindex < len(freshUrls) && sqlc_model.nClaims() == claims0 + rangeindex + 1 && sql.nCommits() == commits0 && sqlc_model.lastFresh(freshUrls) && sqlc_model.lastFreshLimit() == int64(limit)
